@@ -160,9 +160,11 @@ class Writer:
         f = self.fault('settings:' + ctx)
         if f == 'empty':
             return '[]'
-        if f == 'unknown':
+        if f and f.startswith('unknown'):
             items = list(items)
-            items.insert(self.rng.randint(0, len(items)), 'zzzunknownsetting')
+            what = {'unknown': 'zzzunknownsetting', 'unknown-kv-string': "zzzunk: 'value'", 'unknown-kv-word': 'zzzunk: value',
+                    'unknown-kv-number': 'zzzunk: 12'}[f]
+            items.insert(self.rng.randint(0, len(items)), what)
         if f == 'tcomma':
             items = list(items[:-1]) + [items[-1] + ',']
         if f == 'dcomma':
